@@ -1,9 +1,12 @@
 package hx
 
 import (
-	"strings"
+	"context"
 	"fmt"
+	"github.com/vektah/gqlparser/v2/ast"
+	"math/rand"
 	"runtime"
+	"strings"
 	"sync/atomic"
 	"time"
 
@@ -49,7 +52,7 @@ func (c06) Cases(tier string) int {
 }
 
 func (c06) Rule() string {
-	return "corpus (12/120 simultaneous failing dependent calls, fan-out 300), then random federations x random queries x list fan-out 0-300 x fault assignments (0..all dependent calls failing with transport errors / error lists, released together through a barrier; a quarter of the cases under a request context that is cancelled while the n-th service call is under way; a root call answering with a malformed payload: wrong shape, empty, or an otherwise correct answer malformed at the position a dependent step joins); checked: Execute returns under a 20 s watchdog, no service call is in flight at return, the goroutine count settles back, the response does not change after return, the error list has one entry per injected error; non-trivial = at least 3 service calls; distinct = distinct (federation, query, fan-out, fault spec)"
+	return "corpus (12/120 simultaneous failing dependent calls, fan-out 300), every twelfth case a request through three query fields of the gateway's own with one resolver failing while the others are at work (no resolver may outlive Execute), then random federations x random queries x list fan-out 0-300 x fault assignments (0..all dependent calls failing with transport errors / error lists, released together through a barrier; a quarter of the cases under a request context that is cancelled while the n-th service call is under way; a root call answering with a malformed payload: wrong shape, empty, or an otherwise correct answer malformed at the position a dependent step joins); checked: Execute returns under a 20 s watchdog, no service call is in flight at return, the goroutine count settles back, the response does not change after return, the error list has one entry per injected error; non-trivial = at least 3 service calls; distinct = distinct (federation, query, fan-out, fault spec)"
 }
 
 // Run repeats a case: whether the collector's `select` picks the result or the error queue is a coin flip
@@ -90,7 +93,77 @@ func (r6 c06) Run(c *Ctx, i int) CaseResult {
 	return res
 }
 
+// gatewayFields: a request through query fields of the gateway's own (WithQueryFields), one resolver failing while
+// another is still at work: when Execute returns no resolver of that request may still be running, and nothing is left
+func gatewayFields(c *Ctx, i int) CaseResult {
+	r := c.Rand(i + 7000000)
+	res := CaseResult{ID: fmt.Sprintf("gen:%d", i), Features: []string{"gateway-query-fields"}, Nontrivial: true}
+	var running, maxRunning, started int64
+	slow := time.Duration(1+r.Intn(4)) * time.Millisecond
+	failing := r.Intn(3) // which of the three resolvers fails (2: none)
+	mk := func(k int, id string) *gateway.QueryField {
+		return &gateway.QueryField{Name: []string{"session", "viewer", "current"}[k], Type: ast.NamedType("User", nil),
+			Resolver: func(ctx context.Context, args map[string]interface{}) (string, error) {
+				atomic.AddInt64(&started, 1)
+				v := atomic.AddInt64(&running, 1)
+				if v > atomic.LoadInt64(&maxRunning) {
+					atomic.StoreInt64(&maxRunning, v)
+				}
+				defer atomic.AddInt64(&running, -1)
+				if k == failing {
+					return "", fmt.Errorf("resolver %d failed", k)
+				}
+				time.Sleep(slow)
+				return id, nil
+			}}
+	}
+	fields := []*gateway.QueryField{mk(0, "u1"), mk(1, "u2"), mk(2, "u3")}
+	r.Shuffle(len(fields), func(a, b int) { fields[a], fields[b] = fields[b], fields[a] })
+	query := []string{`{ session { firstName } viewer { firstName } current { id } }`, `{ viewer { lastName } session { id } }`,
+		`{ current { firstName lastName } session { nick } viewer { id } me { firstName } }`}[r.Intn(3)]
+	res.Key = fmt.Sprint(query, failing, slow)
+	in := map[string]interface{}{"query": query, "failing_resolver": failing, "slow_ms": slow.Milliseconds()}
+	before := runtime.NumGoroutine()
+	f, err := NewFed(FixedFed(), GenStore(rand.New(rand.NewSource(5)), false), gateway.WithQueryFields(fields...))
+	if err != nil {
+		res.Fails = append(res.Fails, Failure{Channel: "harness", Classifier: "harness-error", What: err.Error(), Input: in})
+		return res
+	}
+	o := f.Run(query, "", nil, 20*time.Second)
+	atReturn := atomic.LoadInt64(&running)
+	fail := func(channel, what string) {
+		res.Fails = append(res.Fails, Failure{Channel: channel, Classifier: "unclassified", What: what, Input: in,
+			Observed: map[string]interface{}{"data": o.Data, "error": ErrString(o.Err), "resolvers_started": atomic.LoadInt64(&started)}})
+	}
+	switch {
+	case o.Hung:
+		fail("hang", "Execute did not return within 20s")
+		return res
+	case o.Panicked != nil:
+		fail("crash", fmt.Sprintf("panic: %v", o.Panicked))
+		return res
+	case o.PlanErr:
+		res.Skipped = "plan-error"
+		return res
+	}
+	if atReturn != 0 {
+		fail("L0.quiescence", fmt.Sprintf("Execute returned while %d resolvers of the gateway's own query fields were still running", atReturn))
+	}
+	deadline := time.Now().Add(time.Second)
+	for runtime.NumGoroutine() > before && time.Now().Before(deadline) {
+		time.Sleep(2 * time.Millisecond)
+	}
+	if g := runtime.NumGoroutine(); g > before {
+		fail("L0.leak", fmt.Sprintf("%d goroutines before the request, %d a second after Execute returned", before, g))
+	}
+	res.Counters = map[string]int{"service_calls": f.TotalCalls(), "max_in_flight": int(atomic.LoadInt64(&maxRunning))}
+	return res
+}
+
 func (c06) once(c *Ctx, i int, rep int) CaseResult {
+	if i >= len(c06Corpus) && i%12 == 7 {
+		return gatewayFields(c, i)
+	}
 	var in FedInput
 	id := ""
 	feats := map[string]bool{}
